@@ -42,6 +42,12 @@ Ask == /\ Is("ask")
 \* another worker in between (study.py _pop_waiting_trial_id); nothing is handed out, nothing is lost.
 AskRaced == Is("ask_raced") /\ UNCHANGED <<enq, handed, numOf>>
 
+\* a look at the queue (Study.get_trials(states=(WAITING,))): exactly the queued trials not handed out yet
+\* (logged by sequential programs only, where "at that moment" is unambiguous)
+Peek == /\ Is("peek")
+        /\ {Ev.tags[i] : i \in 1..Len(Ev.tags)} = {t \in DOMAIN enq : t \notin DOMAIN numOf \/ numOf[t] \notin handed}
+        /\ UNCHANGED <<enq, handed, numOf>>
+
 Suggest == /\ Is("suggest") /\ Ev.n \in handed
            /\ (Ev.tag # 0 /\ Ev.name \in DOMAIN enq[Ev.tag].fixed) => Ev.v = enq[Ev.tag].fixed[Ev.name]   \* verbatim
            /\ UNCHANGED <<enq, handed, numOf>>
@@ -53,6 +59,6 @@ Final == /\ Is("final")
          /\ \A t \in DOMAIN enq : t \in DOMAIN numOf /\ numOf[t] \in handed  \* ... every queued trial was handed out
          /\ UNCHANGED <<enq, handed, numOf>>
 
-Next == Enqueue \/ Enqueued \/ Ask \/ AskRaced \/ Suggest \/ Tell \/ Final
+Next == Enqueue \/ Enqueued \/ Peek \/ Ask \/ AskRaced \/ Suggest \/ Tell \/ Final
 Spec == Init /\ [][Next]_vars
 =================================================================================
